@@ -4073,6 +4073,16 @@ M('C09', 'five-octet-kept-when-parsed', TY, "                    return (self.by
         (PT, "        _bytes += self.encode_length(self.length, self._lenfmt, self.llen)", "        _bytes += self.encode_length(self.length, self._lenfmt, self.llen, getattr(self, '_five', False))")])
 T('C09', 'twin-parsed-width-recorded-unused', TY, _NEWLEN_TAIL, _NEWLEN_TAIL + "            self._wire_llen = size\n")
 
+# --- C09 fifth round: the datetime overload keeps the instant; the parse path of a time codec does not read the clock
+_PK_DT = "            warnings.warn(\"Passing TZ-naive datetime object to PubKeyV4 packet\")\n        self._created = val\n"
+M('C09', 'created-datetime-relabelled', PK, _PK_DT, "            warnings.warn(\"Passing TZ-naive datetime object to PubKeyV4 packet\")\n\n        elif val.tzinfo is not timezone.utc:\n            val = val.replace(tzinfo=timezone.utc)\n        self._created = val\n", 'C09.5')
+M('C09', 'mtime-datetime-relabelled-always', PK, "            warnings.warn(\"Passing TZ-naive datetime object to LiteralData packet\")\n        self._mtime = val\n", "            warnings.warn(\"Passing TZ-naive datetime object to LiteralData packet\")\n        self._mtime = val.replace(tzinfo=timezone.utc)\n", 'C09.5')
+M('C09', 'reader-clamped-to-now', SS, "    def created_int(self, val):\n        self.created = datetime.fromtimestamp(val, timezone.utc)", "    def created_int(self, val):\n        when = datetime.fromtimestamp(val, timezone.utc)\n        now = datetime.now(timezone.utc)\n        self.created = now if when > now else when", 'C09.5')
+M('C09', 'reader-bytes-zero-means-now', PK, "    def mtime_bin(self, val):\n        self.mtime = self.bytes_to_int(val)", "    def mtime_bin(self, val):\n        self.mtime = self.bytes_to_int(val) or int(time.time())", 'C09.5')
+T('C09', 'twin-created-datetime-astimezone', PK, _PK_DT, "            warnings.warn(\"Passing TZ-naive datetime object to PubKeyV4 packet\")\n\n        else:\n            val = val.astimezone(timezone.utc)\n        self._created = val\n")
+M('C09', 'count-cached-on-first-read', FL, "        return (16 + (self._count & 15)) << ((self._count >> 4) + 6)", "        if getattr(self, '_decoded', None) is None:\n            self._decoded = (16 + (self._count & 15)) << ((self._count >> 4) + 6)\n        return self._decoded", 'C09.4')
+M('C09', 'old-type-bits-from-parsed-width', PT, "{1: 0, 2: 1, 4: 2, 0: 3}[self.llen]", "{1: 0, 2: 1, 4: 2, 0: 3}[self._llen]", 'C09.2')
+
 # =============================================================================================== C20
 M('C20', 'ops-loop-forward', PGP, "            for sig in reversed(self._signatures):\n                ops = sig.make_onepass()", "            for sig in self._signatures:\n                ops = sig.make_onepass()", 'C20.2')
 M('C20', 'trailing-sigs-reversed', PGP, "                yield self._mdc\n\n            for sig in self._signatures:\n                yield sig", "                yield self._mdc\n\n            for sig in reversed(self._signatures):\n                yield sig", 'C20.2')
